@@ -37,6 +37,9 @@ def _query(entry, data, X, y, extra):
     new = [np.array(r[:d] + [0.0] * (d - len(r[:d]))) for r in extra["new"]]
     far = [np.array(r[:d] + [0.0] * (d - len(r[:d]))) * 16.0 for r in extra["new"][:3]]
     Q = np.vstack(rows + new + far)
+    if extra.get("extreme"):
+        # one row of a wildly different magnitude sits in the batch (a sentinel, a unit mix-up): the OTHER rows are answered as without it
+        Q = np.vstack([Q, np.full((1, d), float(extra["extreme"]))])
     if kind == "nmf":
         Q = np.abs(Q)
     return np.ascontiguousarray(Q)
@@ -210,7 +213,8 @@ def _cases(draw, name, tier="quick"):
     cell = st.integers(-32, 32).map(lambda v: v / 4.0)
     extra = dict(rows=[draw(st.integers(0, 40)) for _ in range(draw(st.integers(2, 6)))],
                  new=[[draw(cell) for _ in range(4)] for _ in range(draw(st.integers(3, 6)))],
-                 docs=[" ".join(draw(st.lists(st.sampled_from(R.WORDS + ["zebra", "x"]), min_size=0, max_size=5))) for _ in range(3)])
+                 docs=[" ".join(draw(st.lists(st.sampled_from(R.WORDS + ["zebra", "x"]), min_size=0, max_size=5))) for _ in range(3)],
+                 extreme=draw(st.sampled_from([None, None, None, 1e17, -1e17, 1e12])))
     k = 16
     return dict(cls=name, spec=spec, data=data, extra=extra, seed=draw(st.integers(0, 2**31 - 10)),
                 perm=[draw(st.integers(0, 40)) for _ in range(k)], sub=[draw(st.integers(0, 40)) for _ in range(draw(st.integers(1, 6)))],
